@@ -417,6 +417,9 @@ func gen(c *harness.C) []harness.Case {
 	if c.Thorough() {
 		depth = 5
 	}
+	if os.Getenv("VERIF_FAMILY") == "threads" {
+		return threadCases(c)
+	}
 	if r := c.Replay; r != nil {
 		var rp replay
 		if json.Unmarshal(r, &rp) == nil {
